@@ -57,6 +57,13 @@ def cases_for(tier, rng, structure=False):
     k3 = srv.fnode(["d", "disc1.iso"], 6 * 2048, cid="lib_3k3y", mtime=1500000005)
     k3["enc"] = {"kind": "3k3y-enc", "key": KEY, "regions": [[0, 3], [4, 6]], "sectors": 6, "extraLen": 0, "plainName": "lib_3kplain"}
     add("special-members", [srv.dnode(["d"], 1500000000), srv.dnode(["d", "PS3ISO"], 1500000001), g, k, k3])
+    # beyond 4 TiB (sector numbers above 2^31) and beyond what an ISO 9660 volume can address at all (2^32 sectors: refused)
+    TIB = 1 << 40
+    for size in ([] if not full else [3 * TIB + 5]):      # (about 60 s: hundreds of extents; the model's sector numbers end near 4 TiB)
+        add("huge-%d" % size, isotrees.big_file_tree(size), nocanon=True)
+    add("beyond-model-5T", [srv.dnode(["d"], 1500000000), srv.fnode(["d", "FIVE.TIB"], 5 * TIB + 123, cid="tl_5t", mtime=1500000002, islands=[(0, 4096)])], nocanon=True)
+    add("toolarge", [srv.dnode(["d"], 1500000000), srv.fnode(["d", "small.bin"], 2049, cid="tl_small", mtime=1500000001),
+                     srv.fnode(["d", "TOO.BIG"], 8 * TIB + 4096, cid="tl_big", mtime=1500000002, islands=[(0, 4096)])], nocanon=True)
     # PS3 mode
     add("ps3", isotrees.ps3_tree(rng), ps3=True, title=["BLES", "01234"])
     add("ps3-osfs", isotrees.ps3_tree(rng, "NPUB31337", 2, 3), ps3=True, title=["NPUB", "31337"], osfs=True)
